@@ -4,6 +4,9 @@
    `c15 cap <size> <required>`         → `compute_capacity` (generated): `ok:<n>` / `panic`
    `c15 run <sz> <nslots> <op> …`      → the model (`RotoV.ListM.step`) on one history
    `c15 spec <nslots> <op> …`          → the shared-vector specification on the same history
+   `c15 runm <sz> <nslots> <tok> …`    → the model; one record per token: the result of an op,
+                                          or for the marker `!` a dump `!<slot>/<slot>/…;<live>`
+                                          (nested histories compiled to handle variables)
    `c15 pinned <sz> <nslots> <op> …`   → as `run`, but typed `==` uses the lock targets of the
                                           pinned tree (`[self, self]`)
    answer: one `|`-separated record per op: `<out>;<slot>/<slot>/…;<live>`
@@ -103,6 +106,19 @@ def stepPinned (sz : Nat) (s : St) (op : Op) : Out × St :=
     | _, _ => (.fault .badHandle, s)
   | op => step sz s op
 
+/-- `runm`: as `run`, but a record is only the operation's result; the token `!`
+    is not an operation: it dumps every variable (`<slots>;<live>`) -/
+def runMarked (sz : Nat) : St → List String → List String → Option (List String)
+  | _, [], acc => some acc.reverse
+  | s, tok :: rest, acc =>
+    if tok == "!" then runMarked sz s rest (s!"!{showSlots s};{s.live}" :: acc)
+    else
+      match parseOp tok with
+      | none => none
+      | some op =>
+        let r := step sz s op
+        runMarked sz r.2 rest (showOut r.1 :: acc)
+
 def handle (args : List String) : String :=
   match args with
   | ["facts"] =>
@@ -120,6 +136,13 @@ def handle (args : List String) : String :=
     match nat? sz, nat? n, toks.mapM parseOp with
     | some sz, some n, some ops => "|".intercalate (runHist (step sz) (St.init n) ops [])
     | _, _, _ => "bad-op"
+  | "runm" :: sz :: n :: toks =>
+    match nat? sz, nat? n with
+    | some sz, some n =>
+      match runMarked sz (St.init n) toks [] with
+      | some recs => "|".intercalate recs
+      | none => "bad-op"
+    | _, _ => "bad-op"
   | "pinned" :: sz :: n :: toks =>
     match nat? sz, nat? n, toks.mapM parseOp with
     | some sz, some n, some ops => "|".intercalate (runHist (stepPinned sz) (St.init n) ops [])
